@@ -1,5 +1,6 @@
 import IndicatifModel.Props.C06
 import IndicatifModel.Proofs.Faults
+import IndicatifModel.Generated.Unwraps
 /-!
 # C18 — terminal I/O failures never panic, poison or corrupt logical state
 
@@ -115,5 +116,14 @@ example :
     bad.fs.failed = 3 ∧ good.fs.failed = 0 ∧ bad.logical = good.logical ∧ bad.panicked = false ∧
     ((({ multi := m, now := 0, fs := { fault := some (7, true) } } : FW).run (ops.take 2)).step (.mpPrintln [⟨76, 1⟩])).2 = some false := by
   refine ⟨?_, ?_, ?_, ?_, ?_⟩ <;> decide +kernel
+
+/-- **no `unwrap()` on the result of a terminal operation**, re-extracted from the sources on every run (`tools/gen_unwraps.py`:
+every `.unwrap()` / `.expect(..)` of the non-test code of `state.rs`, `multi.rs`, `progress_bar.rs` and `draw_target.rs`, classified
+by what it unwraps): each site unwraps a lock guard (no panic happens while a lock is held, `C18_no_panic_from_faults`), the
+condition variable's wait, the documented anchor of `insert_before/after`, a slot index the slot invariant provides (C02), the head
+of a non-empty ordering, `with_elapsed`'s subtraction or the limiter's `prev` — none an `io::Result`, and none the classifier does
+not know. This is the model's `unwrapSites = false` (the hypothesis of the theorems above), checked against the code. -/
+theorem C18_no_unwrap_of_io_results :
+    ∀ site ∈ Generated.unwrapSites, site.2 ≠ .ioResult ∧ site.2 ≠ .other := by decide
 
 end IndicatifModel.Faults
